@@ -904,6 +904,22 @@ class Gen:
             P.entry_points = ["main"]
         if use_inc:
             P.entry_points.append("inc")
+        if not self.probe and self.chance(1, 6):
+            # the same filter with and without optional arguments, in one template set: a filter that
+            # remembers an argument (policy dicts, defaults) shows up as a later render that differs
+            P.feat("paired_filter_arguments")
+            plain, arg = self.pick([
+                ("ld|tojson", "d1|tojson(indent=2)"),
+                ("l1|join", "l1|join('-')"),
+                ("s1|truncate(3)", "s1|truncate(3, true, '!', 0)"),
+                ("s1|urlize", "s1|urlize(rel='x', target='_top')"),
+                ("l1|sum", "lw|sum(start=l0)|length"),
+                ("s1|indent", "s1|indent(3, true)"),
+            ])
+            P.templates["main"] += self.var(plain) + self.var(arg)
+            other = [n for n in P.entry_points if n != "main"]
+            if other:
+                P.templates[other[0]] += self.var(plain)
         return P
 
 
